@@ -485,6 +485,9 @@ def random_history(backend, seed, steps, focus, tmp):
 def main():
     with open(sys.argv[1]) as f:
         spec = json.load(f)
+    if spec.get("mode") in ("c01", "c06", "c18", "c06del", "c07"):
+        json.dump(extra_main(spec), sys.stdout, default=str)
+        return
     tmp0 = tempfile.mkdtemp(prefix="aw-storage-rt-")
     out = {"status": "ok", "runs": 0, "steps": 0, "violations": []}
     try:
@@ -514,6 +517,309 @@ def main():
     finally:
         shutil.rmtree(tmp0, ignore_errors=True)
     json.dump(out, sys.stdout, default=str)
+
+
+# =========================================================================================================
+# C01: value fidelity and ownership
+# =========================================================================================================
+def c01(backend, seed, n, tmp):
+    from aw_core.models import Event
+    rng = random.Random(seed)
+    h = Harness(backend, tmp)
+    bad = []
+    try:
+        h.apply({"op": "create", "bucket": "b", "data": {"k": {"n": 1}}})
+        h.apply({"op": "create", "bucket": "other"})
+        b = h.ds["b"]
+        seen_ids = set()
+        for k in range(n):
+            off = rng.choice([0, 0, 3600, -3600 * 5, 14 * 3600, -14 * 3600, 19800])
+            ts_us = rng.randint(0, 4102444800 * 1000 - 1) * 1000
+            dur_us = rng.choice([0, 1, 999, 1000, 999999, 1000001, rng.randint(0, 30 * 86400 * 10 ** 6)])
+            data = copy.deepcopy(rng.choice(DATA + [{"s": "q\"'\\ ü€", "x": 0.1, "deep": {"a": [1, 2, {"b": None}]}}]))
+            tz = timezone(timedelta(seconds=off))
+            ev = Event(timestamp=dt(ts_us).astimezone(tz), duration=timedelta(microseconds=dur_us), data=copy.deepcopy(data))
+            bulk = rng.random() < 0.3
+            if bulk:
+                before = {e.id for e in b.get(-1)}
+                b.insert([ev])
+                new = [e for e in b.get(-1) if e.id not in before]
+                if len(new) != 1:
+                    bad.append(f"bulk insert added {len(new)} events")
+                    break
+                eid = new[0].id
+            else:
+                r = b.insert(ev)
+                eid = r.id
+            if eid is None or eid in seen_ids:
+                bad.append(f"id {eid!r} is missing or reused within the bucket")
+                break
+            seen_ids.add(eid)
+            # ownership: mutate everything the caller still holds
+            ev.data["INJECTED"] = 1
+            if isinstance(ev.data.get("l"), list):
+                ev.data["l"].append("INJECTED")
+            if isinstance(ev.data.get("deep"), dict):
+                ev.data["deep"]["a"].append("INJECTED")
+            ev.timestamp = dt(ts_us + 5 * 10 ** 6)
+            ev.duration = timedelta(seconds=77)
+            for how, got in (("lookup", b.get_by_id(eid)), ("listing", next((e for e in b.get(-1) if e.id == eid), None))):
+                if got is None:
+                    bad.append(f"{how}: inserted event {eid} not returned")
+                    continue
+                if us(got.timestamp) != ts_us:
+                    bad.append(f"{how}: instant {us(got.timestamp)} != {ts_us} (offset {off})")
+                if tdus(got.duration) != dur_us:
+                    bad.append(f"{how}: duration {tdus(got.duration)} != {dur_us} us (ts {ts_us})")
+                if got.data != data:
+                    bad.append(f"{how}: data {got.data!r} != {data!r} (after the caller mutated its own event)")
+                # mutate what was handed out
+                got.data["OUT"] = 1
+                if isinstance(got.data.get("l"), list):
+                    got.data["l"].append("OUT")
+                got.duration = timedelta(seconds=99)
+            again = b.get_by_id(eid)
+            if again is None or again.data != data or tdus(again.duration) != dur_us:
+                bad.append(f"a later read changed after mutating an event that was handed out: {again}")
+            if bad:
+                break
+        # metadata dict handed out
+        md = b.metadata()
+        snap = copy.deepcopy(md)
+        md["type"] = "HACK"
+        if isinstance(md.get("data"), dict):
+            md["data"]["HACK"] = 1
+            if isinstance(md["data"].get("k"), dict):
+                md["data"]["k"]["HACK"] = 1
+        md2 = b.metadata()
+        if md2 != snap:
+            bad.append(f"metadata changed after mutating the dict that was handed out: {md2} != {snap}")
+        lst = h.ds.buckets()
+        if "b" in lst and isinstance(lst["b"], dict):
+            lst["b"]["client"] = "HACK"
+            if h.ds.buckets()["b"].get("client") == "HACK":
+                bad.append("bucket listing changed after mutating the dict that was handed out")
+    except Exception:
+        bad.append("exception: " + traceback.format_exc()[-600:])
+    finally:
+        close(h)
+    return bad
+
+
+# =========================================================================================================
+# C06 / C18: what a second connection sees (= what survives a crash), lazily committing sqlite and peewee
+# =========================================================================================================
+class FakeClock:
+    def __init__(self, start):
+        self.t = start
+
+    def now(self, tz=None):
+        return self.t if tz is None else self.t.astimezone(tz)
+
+
+def committed_dump(path, backend):
+    """The database as another connection (or a process started after a crash) sees it."""
+    import sqlite3
+    con = sqlite3.connect(path)
+    try:
+        if backend == "sqlite":
+            b = {r[0]: r[1] for r in con.execute("SELECT rowid, id FROM buckets")}
+            ev = sorted((b.get(r[1]), r[0], int(round(r[2])), int(round(r[3])), r[4]) for r in
+                        con.execute("SELECT id, bucketrow, starttime, endtime, datastr FROM events"))
+            return {"buckets": sorted(b.values()), "events": ev}
+        b = {r[0]: r[1] for r in con.execute("SELECT key, id FROM bucketmodel")}
+        ev = sorted((b.get(r[1]), r[0], str(r[2]), float(r[3]), r[4]) for r in
+                    con.execute("SELECT id, bucket_id, timestamp, duration, datastr FROM eventmodel"))
+        return {"buckets": sorted(b.values()), "events": ev}
+    finally:
+        con.close()
+
+
+def own_dump(h):
+    """The database as the writing connection itself sees it (everything issued so far)."""
+    st = h.ds.storage_strategy
+    if h.backend == "sqlite":
+        b = {r[0]: r[1] for r in st.conn.execute("SELECT rowid, id FROM buckets")}
+        ev = sorted((b.get(r[1]), r[0], int(round(r[2])), int(round(r[3])), r[4]) for r in
+                    st.conn.execute("SELECT id, bucketrow, starttime, endtime, datastr FROM events"))
+        return {"buckets": sorted(b.values()), "events": ev}
+    return committed_dump(h.path, h.backend)
+
+
+def c06(backend, seed, steps, tmp, trickle=False):
+    """After every operation: what another connection sees is the writer's state after some earlier operation
+    (a prefix), bucket-level operations are visible at once, at most ~50 buffered event writes are missing; with
+    `trickle`, writes arrive slower than the count threshold under a controlled clock (C18: flushed when older than ~10 s)."""
+    rng = random.Random(seed)
+    clock = None
+    if backend == "sqlite":
+        import aw_datastore.storages.sqlite as sq
+
+        class _DT(datetime):
+            pass
+        clock = FakeClock(datetime(2020, 1, 1, 12, 0, 0))
+        _DT.now = classmethod(lambda cls, tz=None: clock.now(tz))
+        sq.datetime = _DT
+    h = Harness(backend, tmp, lazy=True)
+    bad = []
+    snaps = []          # writer-visible states after each elementary step
+    writes_since = 0
+    try:
+        gen = OpGen(rng, "C02")
+        for n in range(steps):
+            op = gen.next(h)
+            if op["op"] in ("window", "missing"):
+                continue
+            if op["op"] == "update_bucket" and not any(op.get(f) for f in ("type_id", "client", "hostname", "name", "data")):
+                continue
+            if trickle and op["op"] not in ("insert", "replace", "delete", "create"):
+                continue            # (operations that read first flush by themselves)
+            gap = rng.choice([0, 0, 1, 3]) if not trickle else rng.choice([1, 4, 11, 12, 30, 3])
+            if clock is not None:
+                clock.t = clock.t + timedelta(seconds=gap)
+            age = None
+            if clock is not None and hasattr(h.ds.storage_strategy, "last_commit"):
+                age = (clock.t - h.ds.storage_strategy.last_commit).total_seconds()
+            try:
+                h.apply(op)
+            except Exception as e:
+                bad.append(f"op {op['op']} raised {e!r}")
+                break
+            mine = own_dump(h)
+            snaps.append(mine)
+            seen = committed_dump(h.path, backend)
+            is_bucket_op = op["op"] in ("create", "update_bucket", "delete_bucket")
+            if seen == mine:
+                writes_since = 0
+            else:
+                if seen not in snaps:
+                    bad.append(f"after {op['op']}: another connection sees a state that is not a prefix of what was done")
+                    break
+                k = len(snaps) - 1 - max(i for i, s_ in enumerate(snaps) if s_ == seen)
+                if is_bucket_op or backend == "peewee":
+                    bad.append(f"after {op['op']}: operation not durable on return ({k} operations invisible to another connection)")
+                    break
+                if k > 60:
+                    bad.append(f"after {op['op']}: {k} buffered operations invisible to another connection (documented: about 50)")
+                    break
+                if trickle and age is not None and age > 10.5 and op["op"] in ("insert", "replace", "delete"):
+                    bad.append(f"write issued {age:.0f} s after the previous flush is not durable on return ({k} operations pending)")
+                    break
+    except Exception:
+        bad.append("exception: " + traceback.format_exc()[-600:])
+    finally:
+        close(h)
+    return bad
+
+
+def c06_deletes(tmp, n=150):
+    """Deletions are event writes too: a run of deletes must not stay buffered beyond the documented bound."""
+    h = Harness("sqlite", tmp, lazy=True)
+    bad = []
+    try:
+        h.apply({"op": "create", "bucket": "b"})
+        b = h.ds["b"]
+        from aw_core.models import Event
+        b.insert([Event(timestamp=dt(BASE + i * MS), duration=0, data={}) for i in range(n)])
+        ids = [e.id for e in b.get(-1)]       # get() commits
+        for i in ids:
+            b.delete(i)
+        seen = committed_dump(h.path, "sqlite")
+        missing = len(seen["events"])
+        if missing > 60:
+            bad.append(f"{missing} of {n} deletions are invisible to another connection after they returned (documented bound: about 50)")
+    finally:
+        close(h)
+    return bad
+
+
+# =========================================================================================================
+# C07: heartbeat ingestion through the store equals heartbeat_reduce
+# =========================================================================================================
+def c07(backend, seed, n, tmp):
+    from aw_core.models import Event
+    from aw_transform import heartbeat_merge, heartbeat_reduce
+    rng = random.Random(seed)
+    h = Harness(backend, tmp)
+    bad = []
+    try:
+        h.apply({"op": "create", "bucket": "hb"})
+        h.apply({"op": "create", "bucket": "other"})
+        ob = h.ds["other"]
+        pulsetime = rng.choice([0, 0.001, 0.002, 0.005, 1.0])
+        t = BASE
+        end = t
+        stream = []
+        for _ in range(n):
+            t += rng.choice([1, 1, 2, 3, 6, 1001]) * MS
+            d = rng.choice([0, 0, 1, 2, 5]) * MS
+            if t + d < end:
+                d = end - t            # non-decreasing end instants
+            end = t + d
+            stream.append(Event(timestamp=dt(t), duration=timedelta(microseconds=d), data=copy.deepcopy(rng.choice([{"a": 1}, {"a": 1}, {"a": 2}]))))
+            if rng.random() < 0.4:
+                # populated neighbour sharing instants with the stream
+                ob.insert(Event(timestamp=dt(t - rng.choice([0, 1, 2]) * MS), duration=timedelta(microseconds=end - t + rng.choice([0, 0, 1000])), data={"o": 1}))
+        other_before = sorted((us(e.timestamp), tdus(e.duration), json.dumps(e.data)) for e in ob.get(-1))
+        b = h.ds["hb"]
+        for hb in stream:
+            hb = copy.deepcopy(hb)
+            last = b.get(1)
+            merged = heartbeat_merge(last[0], hb, pulsetime) if last else None
+            if merged is not None:
+                b.replace_last(merged)
+            else:
+                b.insert(hb)
+        expect = heartbeat_reduce(copy.deepcopy(stream), pulsetime)
+        got = sorted(((us(e.timestamp), tdus(e.duration), json.dumps(e.data)) for e in b.get(-1)))
+        exp = sorted(((us(e.timestamp), tdus(e.duration), json.dumps(e.data)) for e in expect))
+        if got != exp:
+            bad.append(f"bucket after the heartbeat loop {got} != heartbeat_reduce {exp} (pulsetime {pulsetime})")
+        other_after = sorted((us(e.timestamp), tdus(e.duration), json.dumps(e.data)) for e in ob.get(-1))
+        if other_after != other_before:
+            bad.append("another bucket changed during heartbeat ingestion")
+    except Exception:
+        bad.append("exception: " + traceback.format_exc()[-600:])
+    finally:
+        close(h)
+    return bad
+
+
+def extra_main(spec):
+    tmp0 = tempfile.mkdtemp(prefix="aw-storage-rt-")
+    out = {"status": "ok", "runs": 0, "violations": []}
+    try:
+        mode = spec["mode"]
+        for k in range(spec.get("runs", 10)):
+            for be in spec.get("backends", ["memory", "sqlite", "peewee"]):
+                tmp = tempfile.mkdtemp(dir=tmp0)
+                seed = spec.get("seed_exact", spec.get("seed", 0) * 7919 + k)
+                if mode == "c01":
+                    bad = c01(be, seed, spec.get("n", 40), tmp)
+                elif mode == "c06":
+                    bad = c06(be, seed, spec.get("steps", 120), tmp, trickle=False) if be != "memory" else []
+                elif mode == "c18":
+                    bad = c06(be, seed, spec.get("steps", 60), tmp, trickle=True) if be == "sqlite" else []
+                elif mode == "c06del":
+                    bad = c06_deletes(tmp) if be == "sqlite" and k == 0 else []
+                elif mode == "c07":
+                    bad = c07(be, seed, spec.get("n", 25), tmp)
+                else:
+                    raise ValueError(mode)
+                out["runs"] += 1
+                shutil.rmtree(tmp, ignore_errors=True)
+                if bad:
+                    out["violations"].append({"backend": be, "seed": seed, "mode": mode, "problems": bad[:5]})
+                    if len(out["violations"]) >= 4:
+                        raise StopIteration
+    except StopIteration:
+        pass
+    except Exception:
+        out["status"] = "error"
+        out["why"] = traceback.format_exc()[-2000:]
+    finally:
+        shutil.rmtree(tmp0, ignore_errors=True)
+    return out
 
 
 if __name__ == "__main__":
